@@ -8,7 +8,10 @@
 //! activation until D after the latest activation, no events on a re-trigger. `on-idle D`: fires
 //! once when kanata has been idle for D ticks and not before. The timed forms are compared tick by
 //! tick against a model that uses the processing discipline of DESIGN appendix A (one queued event
-//! per tick, virtual key events share the queue with physical ones).
+//! per tick, virtual key events share the queue with physical ones). Part E does the same for
+//! hold-for-duration with very small durations and activations that arrive together with other
+//! events in one millisecond or in front of an undecided tap-hold, where the countdown can end
+//! before the queued press of the virtual key has been processed.
 
 use crate::core::sim::{code_name, osc, render_hist, Ev, OutKind, Sim};
 use crate::core::{CaseOut, Check, Ctx};
@@ -775,6 +778,341 @@ fn busy_idle_case(out: &mut CaseOut) {
 }
 
 // ------------------------------------------------------------------------------------------------
+// part E: hold-for-duration while its own press is still waiting in the queue
+//
+// Small durations (down to 1) and activations that arrive together with other key events in the
+// same millisecond, or in front of a tap-hold key that is still undecided. The press that
+// hold-for-duration sends is queued like any other event, so it can still be waiting when the
+// countdown expires; the key must nevertheless come down once and go up again, no earlier than D
+// after the latest activation. Keys: 0 and 1 carry `(hold-for-duration D k1)`, 2 is a plain key,
+// 3 is `(tap-hold 0 H x y)`.
+
+const BKEYS: [&str; 4] = ["h", "j", "z", "t"];
+const B_TAP_OUT: &str = "x";
+const B_HOLD_OUT: &str = "y";
+/// default rapid-event-delay: input processing pauses this many ticks after a tap-hold was decided
+/// by an event (DESIGN appendix A)
+const B_PAUSE: u64 = 5;
+const B_GAPS: [u64; 4] = [0, 1, 2, 7];
+const B_H: u32 = 6;
+const B_DS: [u32; 4] = [1, 2, 3, 5];
+const B_CHUNK: u64 = 1024;
+
+#[derive(Clone, Debug)]
+struct ConfB {
+    d: u32,
+    h: u32,
+}
+
+impl ConfB {
+    fn text(&self) -> String {
+        let act = format!("(hold-for-duration {} k1)", self.d);
+        format!(
+            "(defcfg process-unmapped-keys yes)\n(defsrc {})\n(defvirtualkeys k1 1)\n(deflayer base {act} {act} {} (tap-hold 0 {} {B_TAP_OUT} {B_HOLD_OUT}))\n",
+            BKEYS.join(" "),
+            BKEYS[2],
+            self.h
+        )
+    }
+    fn label(&self) -> String {
+        format!("hold-for-duration-queued|D{}|H{}", self.d, self.h)
+    }
+}
+
+#[derive(Default, Debug, Clone)]
+struct BStats {
+    episodes: u64,
+    rearms: u64,
+    /// the queued press waited two or more ticks before it was processed
+    press_waited: u64,
+    /// the countdown expired while the queued press had not been processed yet
+    expired_before_press: u64,
+    /// ... and an undecided tap-hold was what held the queue up
+    expired_behind_tap_hold: u64,
+    /// re-trigger processed while the queued press had not been processed yet
+    rearm_before_press: u64,
+    tap_hold_taps: u64,
+    tap_hold_holds: u64,
+    max_backlog: u64,
+}
+
+/// Queue model with the processing discipline of DESIGN appendix A: arrivals are appended, one
+/// queued event is consumed per tick unless a tap-hold is undecided (nothing is consumed) or input
+/// processing is paused after a tap-hold decision made by an event; the virtual key's press and
+/// release travel through the same queue. Output keys: 0 = virtual key's output, 1 = plain key,
+/// 2 = tap output, 3 = hold output.
+fn model_backlog(d: u64, h: u64, evs: &[(u64, QE)], horizon: u64) -> (Vec<TOut>, BStats) {
+    struct W {
+        timeout: u64,
+        delay: u64,
+    }
+    let mut outs = vec![];
+    let mut st = BStats::default();
+    let mut q: VecDeque<(QE, u64)> = VecDeque::new();
+    let mut next = 0;
+    let mut deadline: Option<u64> = None;
+    let mut waiting: Option<W> = None;
+    let mut pause = 0u64;
+    let mut th_down: Option<u8> = None;
+    let mut vpress_queued_at: Option<u64> = None;
+    for tick in 1..=horizon {
+        while next < evs.len() && evs[next].0 < tick {
+            q.push_back((evs[next].1, 0));
+            next += 1;
+        }
+        st.max_backlog = st.max_backlog.max(q.len() as u64);
+        for e in q.iter_mut() {
+            e.1 += 1;
+        }
+        if let Some(w) = waiting.as_mut() {
+            w.timeout = w.timeout.saturating_sub(1);
+            let own_release = q.iter().find(|e| e.0 == QE::R(3)).map(|e| e.1);
+            let dec = match own_release {
+                Some(since) => Some(w.timeout > w.delay.saturating_sub(since)),
+                None if w.timeout == 0 => Some(false),
+                None => None,
+            };
+            match dec {
+                Some(true) => {
+                    outs.push(TOut { at: tick, down: true, key: 2 });
+                    th_down = Some(2);
+                    pause = B_PAUSE;
+                    waiting = None;
+                    st.tap_hold_taps += 1;
+                }
+                Some(false) => {
+                    outs.push(TOut { at: tick, down: true, key: 3 });
+                    th_down = Some(3);
+                    waiting = None;
+                    st.tap_hold_holds += 1;
+                }
+                None => {}
+            }
+        } else if pause > 0 {
+            pause -= 1;
+        } else if let Some((e, since)) = q.pop_front() {
+            match e {
+                QE::P(2) => outs.push(TOut { at: tick, down: true, key: 1 }),
+                QE::R(2) => outs.push(TOut { at: tick, down: false, key: 1 }),
+                QE::P(3) => waiting = Some(W { timeout: h, delay: since }),
+                QE::R(3) => {
+                    if let Some(k) = th_down.take() {
+                        outs.push(TOut { at: tick, down: false, key: k });
+                    }
+                }
+                QE::P(_) => match deadline {
+                    Some(_) => {
+                        deadline = Some(d);
+                        st.rearms += 1;
+                        if vpress_queued_at.is_some() {
+                            st.rearm_before_press += 1;
+                        }
+                    }
+                    None => {
+                        q.push_back((QE::VPress, 0));
+                        vpress_queued_at = Some(tick);
+                        deadline = Some(d);
+                        st.episodes += 1;
+                    }
+                },
+                QE::R(_) => {}
+                QE::VPress => {
+                    if let Some(t0) = vpress_queued_at.take() {
+                        if tick - t0 >= 2 {
+                            st.press_waited += 1;
+                        }
+                    }
+                    outs.push(TOut { at: tick, down: true, key: 0 });
+                }
+                QE::VRelease => outs.push(TOut { at: tick, down: false, key: 0 }),
+            }
+        }
+        if let Some(x) = deadline {
+            let x = x - 1;
+            if x == 0 {
+                q.push_back((QE::VRelease, 0));
+                deadline = None;
+                if vpress_queued_at.is_some() {
+                    st.expired_before_press += 1;
+                    if waiting.is_some() || q.iter().any(|e| e.0 == QE::P(3)) {
+                        st.expired_behind_tap_hold += 1;
+                    }
+                }
+            } else {
+                deadline = Some(x);
+            }
+        }
+    }
+    (outs, st)
+}
+
+/// Toggle scenarios: every step is (gap to the previous event, key); the key is pressed if it is up
+/// and released if it is down. Keys that are still down at the end are released one tick apart.
+fn backlog_events(steps: &[(u64, u8)]) -> Vec<(u64, QE)> {
+    let mut evs = vec![];
+    let mut down = [false; 4];
+    let mut t = 0u64;
+    for (i, (g, k)) in steps.iter().enumerate() {
+        if i > 0 {
+            t += g;
+        }
+        let ku = *k as usize;
+        evs.push((t, if down[ku] { QE::R(*k) } else { QE::P(*k) }));
+        down[ku] = !down[ku];
+    }
+    for k in 0..4u8 {
+        if down[k as usize] {
+            t += 1;
+            evs.push((t, QE::R(k)));
+        }
+    }
+    evs
+}
+
+/// number of steps enumerated completely per duration
+fn backlog_n(ctx: &Ctx) -> u32 {
+    ctx.tier.sel(4, 5)
+}
+
+fn backlog_space(nmax: u32) -> u64 {
+    // the gap of the first step is not used
+    (1..=nmax).map(|n| 4 * 16u64.pow(n - 1)).sum()
+}
+
+fn backlog_scen(mut idx: u64, nmax: u32) -> Option<Vec<(u64, u8)>> {
+    let mut n = 1;
+    loop {
+        if n > nmax {
+            return None;
+        }
+        let b = 4 * 16u64.pow(n - 1);
+        if idx < b {
+            break;
+        }
+        idx -= b;
+        n += 1;
+    }
+    let mut steps = vec![];
+    steps.push((0, (idx % 4) as u8));
+    idx /= 4;
+    for _ in 1..n {
+        let g = B_GAPS[(idx % 4) as usize];
+        idx /= 4;
+        let k = (idx % 4) as u8;
+        idx /= 4;
+        steps.push((g, k));
+    }
+    Some(steps)
+}
+
+/// seeded part: longer toggle scenarios with a wider choice of durations, tap-hold timeouts and gaps
+fn backlog_random(rng: &mut crate::core::rng::Rng) -> (ConfB, Vec<(u64, u8)>) {
+    let d = *rng.pick(&[1u32, 1, 2, 2, 3, 3, 4, 5, 8, 12]);
+    let h = *rng.pick(&[4u32, 6, 15, 30]);
+    let n = rng.range(4, 11);
+    let du = d as u64;
+    let gaps: Vec<u64> = vec![0, 0, 0, 0, 1, 1, 2, 3, du.saturating_sub(1), du, du + 1, h as u64 - 1, h as u64 + 1, h as u64 + du + 8];
+    let mut steps = vec![];
+    // bursts: after a step with gap 0 the next one is likely to have gap 0 as well
+    let mut burst = false;
+    for i in 0..n {
+        let g = if i == 0 {
+            0
+        } else if burst && rng.chance(2, 3) {
+            0
+        } else {
+            *rng.pick(&gaps)
+        };
+        burst = g == 0;
+        let k = *rng.pick(&[0u8, 0, 0, 1, 1, 2, 2, 2, 3, 3]);
+        steps.push((g, k));
+    }
+    (ConfB { d, h }, steps)
+}
+
+fn run_backlog(c: &ConfB, evs: &[(u64, QE)], horizon: u64, nm: &[String; 4]) -> (Vec<TOut>, Vec<String>, Vec<Ev>, bool, String) {
+    let Ok(mut sim) = Sim::new(&c.text()) else {
+        return (vec![], vec!["config rejected".into()], vec![], false, "config rejected".into());
+    };
+    let mut hist = vec![];
+    let mut next = 0;
+    let mut gap = 0u32;
+    for tick in 1..=horizon {
+        while next < evs.len() && evs[next].0 < tick {
+            if gap > 0 {
+                hist.push(Ev::T(gap));
+                gap = 0;
+            }
+            match evs[next].1 {
+                QE::P(k) => {
+                    let code = osc(BKEYS[k as usize]);
+                    sim.press(code);
+                    hist.push(Ev::P(code));
+                }
+                QE::R(k) => {
+                    let code = osc(BKEYS[k as usize]);
+                    sim.release(code);
+                    hist.push(Ev::R(code));
+                }
+                _ => {}
+            }
+            next += 1;
+        }
+        let _ = sim.k.can_block_update_idle_waiting(1);
+        sim.tick();
+        gap += 1;
+    }
+    hist.push(Ev::T(gap));
+    let mut outs = vec![];
+    let mut raw = vec![];
+    for o in &sim.trace {
+        raw.push(o.short());
+        if o.redundant {
+            continue;
+        }
+        let down = o.kind == OutKind::Down;
+        let key = if !matches!(o.kind, OutKind::Down | OutKind::Up) || o.repress { 9 } else { nm.iter().position(|n| *n == o.name).map(|p| p as u8).unwrap_or(9) };
+        outs.push(TOut { at: o.at, down, key });
+    }
+    let ok = sim.os.all_up() && sim.is_idle();
+    let state = format!("{}; pending hold-for-duration entries: {}", sim.os.describe(), sim.k.vkeys_pending_release.len());
+    (outs, raw, hist, ok, state)
+}
+
+fn render_bouts(v: &[TOut], nm: &[String; 4]) -> Vec<String> {
+    v.iter().map(|o| format!("{}{}@{}", if o.down { "↓" } else { "↑" }, nm.get(o.key as usize).map(|s| s.as_str()).unwrap_or("<unexpected>"), o.at)).collect()
+}
+
+/// Judge one scenario of part E; returns (signature class, description) on a mismatch.
+fn judge_backlog(obs: &[TOut], exp: &[TOut], ok: bool) -> Option<(&'static str, String)> {
+    let vk = |v: &[TOut], down: bool| v.iter().filter(|o| o.key == 0 && o.down == down).count();
+    // the property in its plain form first: the key comes up again
+    if vk(obs, true) > vk(obs, false) {
+        return Some(("never-released", "the virtual key was pressed by hold-for-duration and never released".into()));
+    }
+    if obs.iter().any(|o| o.key == 9) {
+        return Some(("unexpected-output", "an output that none of the keys can produce".into()));
+    }
+    if !ok {
+        return Some(("stuck", "a key stayed down or kanata did not become idle".into()));
+    }
+    if obs != exp {
+        let same_order = obs.len() == exp.len() && obs.iter().zip(exp).all(|(x, y)| x.down == y.down && x.key == y.key);
+        let class = if vk(obs, true) > vk(exp, true) {
+            "extra-events-on-retrigger"
+        } else if vk(obs, true) < vk(exp, true) {
+            "missing-press"
+        } else if same_order {
+            "timing"
+        } else {
+            "order"
+        };
+        return Some((class, "the OS key stream differs from the model's".into()));
+    }
+    None
+}
+
+// ------------------------------------------------------------------------------------------------
 // cases
 
 #[derive(Clone, Debug)]
@@ -782,6 +1120,58 @@ enum CaseKind {
     Ops(usize, u64, u64),
     Timed(usize, u64, u64),
     BusyIdle,
+    /// (index into B_DS, first scenario, one past the last)
+    Backlog(usize, u64, u64),
+    /// seeded longer scenarios; (chunk number, count)
+    BacklogRandom(u64, u64),
+}
+
+fn backlog_one(out: &mut CaseOut, c: &ConfB, steps: &[(u64, u8)], reported: &mut std::collections::BTreeSet<String>, may_sample: bool) {
+    let nm = [code_name(osc("1")), code_name(osc(BKEYS[2])), code_name(osc(B_TAP_OUT)), code_name(osc(B_HOLD_OUT))];
+    let evs = backlog_events(steps);
+    let horizon = evs.last().map(|e| e.0).unwrap_or(0) + 2 * c.h as u64 + 3 * c.d as u64 + 40;
+    let (exp, st) = model_backlog(c.d as u64, c.h as u64, &evs, horizon);
+    let (obs, raw, hist, ok, state) = run_backlog(c, &evs, horizon, &nm);
+    out.inc("hold_queued_scenarios");
+    out.count("hold_queued_episodes", st.episodes);
+    if c.d <= 3 {
+        out.count("hold_queued_episodes_duration_1_to_3", st.episodes);
+    }
+    if c.d == 1 {
+        out.count("hold_queued_episodes_duration_1", st.episodes);
+    }
+    out.count("hold_queued_rearms", st.rearms);
+    out.count("hold_queued_press_waited_2_or_more_ticks", st.press_waited);
+    out.count("hold_queued_expired_before_press_processed", st.expired_before_press);
+    if c.d >= 2 {
+        out.count("hold_queued_expired_before_press_processed_duration_2_or_more", st.expired_before_press);
+    }
+    out.count("hold_queued_expired_behind_undecided_tap_hold", st.expired_behind_tap_hold);
+    out.count("hold_queued_rearm_before_press_processed", st.rearm_before_press);
+    out.count("hold_queued_tap_hold_taps", st.tap_hold_taps);
+    out.count("hold_queued_tap_hold_holds", st.tap_hold_holds);
+    out.max("hold_queued_max_backlog", st.max_backlog);
+    let same_ms = evs.windows(2).filter(|w| w[0].0 == w[1].0).count() as u64;
+    out.count("hold_queued_events_in_same_ms", same_ms);
+    out.tag(format!("{}|{}|{}|{}|{}|{}|{}", c.label(), evs.len(), same_ms, st.episodes, st.rearms, st.expired_before_press, st.tap_hold_taps + 2 * st.tap_hold_holds));
+    if let Some((class, what)) = judge_backlog(&obs, &exp, ok) {
+        let sig = format!("C18:hold-for-duration:queued:{class}");
+        if reported.insert(sig.clone()) {
+            out.violate(
+                sig,
+                format!("{}: {what}", c.label()),
+                json!({"config": c.text(), "history": render_hist(&hist), "observed": raw, "expected": render_bouts(&exp, &nm), "end_state": state, "note": "events without a tick between them arrive in the same millisecond; the virtual key's press and release are queued behind pending events (one queued event is consumed per tick, none while a tap-hold is undecided)"}),
+            );
+        }
+    }
+    if may_sample && out.sample.is_none() && st.expired_before_press > 0 && evs.len() >= 4 {
+        out.sample = Some(json!({"config": c.text(), "history": render_hist(&hist), "observed": raw, "expected": render_bouts(&exp, &nm)}));
+    }
+}
+
+fn backlog_random_chunks(ctx: &Ctx) -> (u64, u64) {
+    // (chunks, scenarios per chunk)
+    ctx.tier.sel((16, 512), (64, 2048))
 }
 
 fn timed_n(ctx: &Ctx) -> u32 {
@@ -807,6 +1197,18 @@ fn layout(ctx: &Ctx) -> Vec<CaseKind> {
         }
     }
     v.push(CaseKind::BusyIdle);
+    for di in 0..B_DS.len() {
+        let tot = backlog_space(backlog_n(ctx));
+        let mut s = 0;
+        while s < tot {
+            v.push(CaseKind::Backlog(di, s, (s + B_CHUNK).min(tot)));
+            s += B_CHUNK;
+        }
+    }
+    let (chunks, per) = backlog_random_chunks(ctx);
+    for ch in 0..chunks {
+        v.push(CaseKind::BacklogRandom(ch, per));
+    }
     v
 }
 
@@ -821,6 +1223,8 @@ impl Check for C18Check {
         match layout(ctx).get(idx as usize) {
             Some(CaseKind::Ops(ci, a, b)) => json!({"config": configs_a()[*ci].text(), "histories": format!("operation histories #{a}..#{b}")}),
             Some(CaseKind::Timed(ci, a, b)) => json!({"config": configs_t()[*ci].text(), "scenarios": format!("timed scenarios #{a}..#{b}")}),
+            Some(CaseKind::Backlog(di, a, b)) => json!({"config": ConfB { d: B_DS[*di], h: B_H }.text(), "scenarios": format!("queued hold-for-duration toggle scenarios #{a}..#{b}")}),
+            Some(CaseKind::BacklogRandom(ch, n)) => json!({"kind": format!("{n} seeded queued hold-for-duration scenarios, chunk {ch}")}),
             _ => json!({"kind": "on-idle after a busy period"}),
         }
     }
@@ -829,6 +1233,23 @@ impl Check for C18Check {
         let Some(kind) = layout(ctx).get(idx as usize).cloned() else { return out };
         match kind {
             CaseKind::BusyIdle => busy_idle_case(&mut out),
+            CaseKind::Backlog(di, a, b) => {
+                let c = ConfB { d: B_DS[di], h: B_H };
+                let mut reported: std::collections::BTreeSet<String> = Default::default();
+                for i in a..b {
+                    let Some(steps) = backlog_scen(i, backlog_n(ctx)) else { continue };
+                    backlog_one(&mut out, &c, &steps, &mut reported, a == 0);
+                }
+            }
+            CaseKind::BacklogRandom(ch, n) => {
+                let mut rng = crate::core::rng::Rng::for_case(ctx.seed, "C18", "queued-hold", ch);
+                let mut reported: std::collections::BTreeSet<String> = Default::default();
+                for _ in 0..n {
+                    let (c, steps) = backlog_random(&mut rng);
+                    out.inc("hold_queued_scenarios_seeded");
+                    backlog_one(&mut out, &c, &steps, &mut reported, ch == 0);
+                }
+            }
             CaseKind::Ops(ci, a, b) => {
                 let confs = configs_a();
                 let c = &confs[ci];
@@ -949,7 +1370,7 @@ impl Check for C18Check {
         out
     }
     fn rule(&self) -> String {
-        "case = (a) one configuration (virtual key sets {key}, {key,key}, {key,layer-while-held}, {key,layer,macro}; trigger path direct fake-key call / on-press / on-release / legacy on-press-fakekey / legacy on-release-fakekey / macro item / defseq completion) and a chunk of ALL operation histories up to N operations over every (virtual key, press|release|tap|toggle) pair (macro keys: tap only); quick N=5 (4 for the larger sets on the slower paths), thorough N=7 (6); every history is compared with the reference model after every operation (OS key state, active layer) and as a whole (OS key stream, plus a probe key press showing the layer through the OS stream); the model is the same for every path, so equal effect across paths is implied; (b) hold-for-duration D in {10,40} and on-idle D in {10,40} (+ legacy form): a first activation followed by up to 2 (quick) / 3 (thorough) further taps of the same key, a second key with the same action or a plain key, at every combination of distances around D (D-2..D+2, small, 2D) and two hold lengths, compared tick by tick with the model while the blocking predicate is consulted before every tick; (c) on-idle armed before a long macro: fires exactly once and not before D ticks after the macro's last output. Non-trivial = history/scenario ran and was judged; distinct = (configuration, first four operations) / (configuration, events, re-arms, episodes, firings).".into()
+        "case = (a) one configuration (virtual key sets {key}, {key,key}, {key,layer-while-held}, {key,layer,macro}; trigger path direct fake-key call / on-press / on-release / legacy on-press-fakekey / legacy on-release-fakekey / macro item / defseq completion) and a chunk of ALL operation histories up to N operations over every (virtual key, press|release|tap|toggle) pair (macro keys: tap only); quick N=5 (4 for the larger sets on the slower paths), thorough N=7 (6); every history is compared with the reference model after every operation (OS key state, active layer) and as a whole (OS key stream, plus a probe key press showing the layer through the OS stream); the model is the same for every path, so equal effect across paths is implied; (b) hold-for-duration D in {10,40} and on-idle D in {10,40} (+ legacy form): a first activation followed by up to 2 (quick) / 3 (thorough) further taps of the same key, a second key with the same action or a plain key, at every combination of distances around D (D-2..D+2, small, 2D) and two hold lengths, compared tick by tick with the model while the blocking predicate is consulted before every tick; (c) on-idle armed before a long macro: fires exactly once and not before D ticks after the macro's last output. (d) hold-for-duration whose own press is still waiting in the queue: D in {1,2,3,5} with two keys carrying the action, a plain key and a tap-hold key (timeout 6); ALL toggle scenarios (each step presses the key if it is up, releases it if it is down) of up to 4 (quick) / 5 (thorough) steps over the 4 keys and the distances {0,1,2,7} to the previous event (0 = same millisecond, 7 = longer than every D and than the tap-hold timeout), plus seeded longer scenarios (4..10 steps, D in {1,2,3,4,5,8,12}, tap-hold timeout in {4,6,15,30}, bursts of same-millisecond events); the virtual key must come down once per episode and go up again D after the latest activation was processed, compared tick by tick with the queue model (one queued event consumed per tick, none while the tap-hold is undecided or during the pause after its decision; the virtual key's press and release wait behind everything queued before them), and in plain form: every press of the virtual key is followed by its release. Non-trivial = history/scenario ran and was judged; distinct = (configuration, first four operations) / (configuration, events, re-arms, episodes, firings) / (configuration, events, same-millisecond events, episodes, re-arms, expiries before the press was processed, tap-hold outcomes).".into()
     }
     fn assumptions(&self) -> Vec<String> {
         vec![
@@ -958,6 +1379,7 @@ impl Check for C18Check {
             "layer-while-held virtual keys are observed through Layout::current_layer after every operation and through a probe key in the OS stream at the end of each history".into(),
             "timed forms: processing discipline of DESIGN appendix A (one queued event per tick; virtual key events are queued behind pending physical events); hold-for-duration releases D ticks after the tick of the latest activation; on-idle fires in the tick in which D idle loop iterations have been counted, any input resets the count".into(),
             "on-idle is only exercised with tap actions and re-armed only after it fired".into(),
+            "hold-for-duration with queued events (part d): events without a tick between them are delivered in the same millisecond in the order given; the activation counts from the tick in which the key's press is processed (not from its arrival), so a press that waited in the queue shortens the visible hold time and, when the countdown ends before the queued press was processed, the key is pressed and released in consecutive ticks; the tap-hold key follows DESIGN appendix A (tap iff its release is seen before the timeout, time spent waiting in the queue deducted; input processing pauses rapid-event-delay = 5 ticks after a tap decision, not after a timeout); at most 16 events are ever queued (keyberon's queue holds 32)".into(),
             "the TCP path is represented by the function the TCP server calls (handle_fakekey_action); no socket is opened".into(),
         ]
     }
@@ -978,6 +1400,17 @@ impl Check for C18Check {
             ("idle_firings", 1_000),
             ("idle_countdowns_interrupted", 200),
             ("idle_firings_after_busy_period", 4),
+            ("hold_queued_scenarios", 50_000),
+            ("hold_queued_scenarios_seeded", 4_000),
+            ("hold_queued_episodes_duration_1", 10_000),
+            ("hold_queued_episodes_duration_1_to_3", 40_000),
+            ("hold_queued_events_in_same_ms", 40_000),
+            ("hold_queued_press_waited_2_or_more_ticks", 20_000),
+            ("hold_queued_expired_before_press_processed", 20_000),
+            ("hold_queued_expired_before_press_processed_duration_2_or_more", 5_000),
+            ("hold_queued_expired_behind_undecided_tap_hold", 2_000),
+            ("hold_queued_rearm_before_press_processed", 2_000),
+            ("hold_queued_rearms", 5_000),
         ]
     }
     fn exhaustive(&self, _ctx: &Ctx) -> bool {
